@@ -171,6 +171,33 @@ pub fn gen_box_c03(r: &mut Rng, nvars: usize) -> Vec<(f32, f32)> {
     }).collect()
 }
 
+/// Inputs of the known findings, run first on every check.
+fn c03_corpus() -> Vec<(Dag, Vec<(f32, f32)>, Vec<Vec<f32>>, bool)> {
+    use fidget_core::context::Context;
+    let mut out = vec![];
+    {   // D9: a NaN point operand behind a non-NaN interval, un-NaN'ed by `and`
+        let mut ctx = Context::new();
+        let x = ctx.x(); let y = ctx.y();
+        let yy = ctx.mul(y, y).unwrap();
+        let p = ctx.mul(x, yy).unwrap();
+        let m = ctx.min(p, 0.0).unwrap();
+        let a = ctx.and(m, 5.0).unwrap();
+        out.push((Dag { ctx, roots: vec![a], vs: vec![] }, vec![(0.0, 1.0), (1e30, 1e30), (0.0, 0.0)],
+                  vec![vec![0.0, 1e30, 0.0], vec![1.0, 1e30, 0.0]], true));
+    }
+    {   // hash opcodes distinguish the two zeros, interval arithmetic does not
+        let mut ctx = Context::new();
+        let x = ctx.x();
+        let z = ctx.mul(x, 0.0).unwrap();
+        let m = ctx.mix(z, 1.0).unwrap();
+        let r = ctx.rand(z).unwrap();
+        let s = ctx.add(m, r).unwrap();
+        out.push((Dag { ctx, roots: vec![s], vs: vec![] }, vec![(-1.0, 1.0), (0.0, 0.0), (0.0, 0.0)],
+                  vec![vec![-0.5, 0.0, 0.0], vec![0.5, 0.0, 0.0], vec![0.0, 0.0, 0.0]], false));
+    }
+    out
+}
+
 pub fn run(seed: u64, count: usize, outdir: &str) -> std::io::Result<i32> {
     let mut rng = Rng::new(seed ^ 0xC03);
     let (mut cases, mut impls, mut oracle) = (String::new(), String::new(), String::new());
@@ -180,20 +207,27 @@ pub fn run(seed: u64, count: usize, outdir: &str) -> std::io::Result<i32> {
     let mut ops_seen: BTreeMap<String, usize> = BTreeMap::new();
     let mut local_checks = 0usize;
     let mut node_point_checks = 0usize;
+    let mut corpus = c03_corpus();
+    corpus.reverse();
     for ci in 0..count {
         let mut r = rng.fork();
+        let from_corpus = corpus.pop();
         let cfg = DagCfg { max_ops: *r.pick(&[3, 8, 20, 40]), max_outputs: 1, max_free_vars: *r.pick(&[0, 0, 2]),
             p_recent: *r.pick(&[0.3, 0.7]), p_const_operand: *r.pick(&[0.15, 0.35]), p_special_const: *r.pick(&[0.02, 0.15]),
             choice_heavy: false, no_hash: !r.chance(0.15), const_roots: false, choice_chain: 0 };
         let diffed = cfg.no_hash;
         let dag = gen_dag(&mut r, &cfg);
+        let (dag, fixed_box, fixed_samples, diffed) = match from_corpus {
+            Some((d, b, s, df)) => (d, Some(b), Some(s), df),
+            None => (dag, None, None, diffed),
+        };
         let roots = all_nodes(&dag, 48);
         let d2 = Dag { ctx: dag.ctx, roots: roots.clone(), vs: dag.vs };
         let dag = d2;
         for n in &roots { *ops_seen.entry(op_name(&dag, *n)).or_default() += 1; }
         let nvars = 3 + dag.vs.len();
-        let bx = gen_box_c03(&mut r, nvars);
-        let samples = sample_box(&mut r, &bx, 8);
+        let bx = fixed_box.unwrap_or_else(|| gen_box_c03(&mut r, nvars));
+        let samples = fixed_samples.unwrap_or_else(|| sample_box(&mut r, &bx, 8));
         // ---- implementation: interpreter interval results for the model diff
         let vm = GenericVmFunction::<255>::new(&dag.ctx, &dag.roots).unwrap();
         let mut text = String::from("iv");
